@@ -328,10 +328,7 @@ def b_sorted(I, args, kw):
     if kw.get("reverse"):
         raise OutOfReach("sorted(reverse=True)")
     if isinstance(seq, SList):
-        h = I.registry.hooks.get("sorted_slist")
-        if h is None:
-            raise OutOfReach("sorted over a list of symbolic length")
-        return h(I, seq, key)
+        return sorted_slist(I, seq, key)
     items = list(I.iter_values(seq))
     keys = [I.call_value(key, [x], {}) if key is not None else x for x in items]
     # stable insertion sort with forking comparisons (lists are short in this code base)
@@ -602,6 +599,8 @@ def call_method(I, obj, name, args, kw):
         return str_method(I, obj, name, args, kw)
     if isinstance(obj, list):
         return list_method(I, obj, name, args, kw)
+    if hasattr(obj, "pyvc_method"):
+        return obj.pyvc_method(I, name, args, kw)
     if isinstance(obj, DictVal):
         if name == "get":
             return obj.get(I, args[0], args[1] if len(args) > 1 else None)
@@ -751,6 +750,54 @@ def str_method(I, obj, name, args, kw):
         f = z3.Function("RSTRIP_" + args[0].encode().hex(), I.str_term(obj).sort(), I.str_term(obj).sort())
         return SStr(f(I.str_term(obj)))
     raise OutOfReach(f"str.{name} on a symbolic string")
+
+
+IDXMARK = z3.Function("IDXMARK", z3.IntSort(), z3.BoolSort())
+
+
+def fresh_index(I, n, name="j"):
+    """An arbitrary index 0 <= j < n (for universally quantified obligations); marked so that quantified
+    builtin contracts (sorted: surjectivity) instantiate on it."""
+    j = fresh_int(name)
+    I.ctx.assume(z3.And(j >= 0, j < Z(n), IDXMARK(j)))
+    return j
+
+
+def slist_append(I, lst: SList, x):
+    n = lst.length
+    old = lst.elem
+
+    def elem(j, old=old, n=n, x=x):
+        jc, nc = conc_int(j), conc_int(n)
+        if jc is not None and nc is not None:
+            return x if jc == nc else old(j)
+        if I.ctx.entails(Z(j) == Z(n)):
+            return x
+        if I.ctx.entails(Z(j) != Z(n)):
+            return old(j)
+        return x if I.branch(Z(j) == Z(n)) else old(j)
+
+    return SList(simp(Z(n) + 1), elem)
+
+
+def sorted_slist(I, seq: SList, key):
+    """Assumed contract of sorted() on a list of arbitrary length n: the result is seq composed with a permutation
+    PI of 0..n-1 (PI maps into range; SIG is its right inverse, so every input occurs) and is pairwise
+    non-decreasing in the key (lexicographic on tuples). Stability is not needed by any caller and not stated."""
+    n = seq.length
+    PI = z3.Function(z3.FreshConst(z3.IntSort(), "PI").decl().name(), z3.IntSort(), z3.IntSort())
+    SIG = z3.Function(z3.FreshConst(z3.IntSort(), "SIG").decl().name(), z3.IntSort(), z3.IntSort())
+    a, b = z3.Ints("srt!a srt!b")
+    rng = lambda k: z3.And(k >= 0, k < Z(n))  # noqa: E731
+    I.ctx.assume(z3.ForAll([a], z3.Implies(rng(a), rng(PI(a))), patterns=[PI(a)]))
+    I.ctx.assume(z3.ForAll([a], z3.Implies(z3.And(rng(a), IDXMARK(a)), z3.And(rng(SIG(a)), PI(SIG(a)) == a)), patterns=[IDXMARK(a)]))
+    ka = I.call_value(key, [seq.elem(PI(a))], {}) if key is not None else seq.elem(PI(a))
+    kb = I.call_value(key, [seq.elem(PI(b))], {}) if key is not None else seq.elem(PI(b))
+    le = I._not(_lt(I, kb, ka))
+    I.ctx.assume(z3.ForAll([a, b], z3.Implies(z3.And(a >= 0, a <= b, b < Z(n)), Z(le)), patterns=[z3.MultiPattern(PI(a), PI(b))]))
+    out = SList(n, lambda k: seq.elem(PI(Z(k))))
+    out.perm = PI
+    return out
 
 
 def list_method(I, obj, name, args, kw):
